@@ -1475,4 +1475,308 @@ theorem squeeze_idem (P : Part) :
     subst h
     simpa using (List.mem_filter.mp hp).2
 
+/-! ### round 4: index of a grid point, n-d points, cell volume / isotropy of uniform partitions,
+constructor equivalences -/
+
+theorem bdry_mono_le (P : Part1) (hv : Valid P) (hn : Nondegenerate P) (j k : Nat) (hjk : j ≤ k)
+    (hk : k ≤ P.n) : P.bdry j ≤ P.bdry k := by
+  induction k with
+  | zero => have : j = 0 := by omega
+            subst this; exact le_refl _
+  | succ k ih =>
+    rcases Nat.lt_or_ge j (k + 1) with h | h
+    · exact le_trans (ih (by omega) (by omega)) (le_of_lt (bdry_lt_succ P hv hn k (by omega)))
+    · have : j = k + 1 := by omega
+      subst this; exact le_refl _
+
+theorem node_lt_bdry_succ (P : Part1) (hv : Valid P) (i : Nat) (hi : i + 1 < P.n) :
+    P.c i < P.bdry (i + 1) := by
+  rw [bdry_succ_mid P i hi]
+  have := hv.mono i hi
+  linarith
+
+/-- index of a grid point is its own number -/
+theorem index_node (P : Part1) (hv : Valid P) (i : Nat) (hi : i < P.n) :
+    P.index (P.c i) = some (i : Int) := by
+  have hlo : P.lo ≤ P.c i := le_trans hv.lo_le (hv.c_mono (Nat.zero_le i) hi)
+  have hhi : P.c i ≤ P.hi := le_trans (hv.c_mono (show i ≤ P.n - 1 by omega) (by have := hv.pos; omega)) hv.le_hi
+  by_cases hn : Nondegenerate P
+  · obtain ⟨k, hk, hkn, hb1, hb2, _⟩ := index_spec P hv (bdry_lt_succ P hv hn) (P.c i) hlo hhi
+    rw [hk]
+    congr 1
+    rcases Nat.lt_trichotomy k i with h | h | h
+    · exfalso
+      rcases hb2 with h2 | ⟨h2, _⟩
+      · have := bdry_mono_le P hv hn (k + 1) i (by omega) (by omega)
+        have := node_ge_bdry P hv i hi
+        linarith
+      · omega
+    · rw [h]
+    · exfalso
+      have h1 := node_lt_bdry_succ P hv i (by omega)
+      have := bdry_mono_le P hv hn (i + 1) k (by omega) (by omega)
+      linarith
+  · have h1 : P.n = 1 := by
+      unfold Nondegenerate at hn; have := hv.pos; omega
+    have h2 : P.lo = P.hi := by
+      unfold Nondegenerate at hn
+      have : P.lo ≤ P.hi := le_trans hlo hhi
+      have h3 : ¬ P.lo < P.hi := fun h => hn (Or.inr h)
+      linarith
+    have hi0 : i = 0 := by omega
+    subst hi0
+    have hc : P.c 0 = P.lo := by
+      have := hv.lo_le
+      have h4 := hv.le_hi
+      rw [h1] at h4
+      simp at h4
+      linarith
+    rw [hc]
+    simpa using (index_degenerate P hv h1 h2).1
+
+theorem mem_coords (P : Part1) (x : Rat) : x ∈ P.coords ↔ ∃ i, i < P.n ∧ x = P.c i := by
+  unfold Part1.coords
+  simp only [List.mem_map, List.mem_range]
+  constructor
+  · rintro ⟨i, hi, rfl⟩; exact ⟨i, hi, rfl⟩
+  · rintro ⟨i, hi, rfl⟩; exact ⟨i, hi, rfl⟩
+
+/-- the point with multi-index `mi` -/
+def pointAt : Part → List Nat → List Rat
+  | p :: rest, i :: mi => p.c i :: pointAt rest mi
+  | _, _ => []
+
+/-- `mi` is a multi-index of `P` -/
+def InRange : Part → List Nat → Prop
+  | [], [] => True
+  | p :: rest, i :: mi => i < p.n ∧ InRange rest mi
+  | _, _ => False
+
+theorem ndPoints_spec (P : Part) (v : List Rat) :
+    v ∈ ndPoints P ↔ ∃ mi, InRange P mi ∧ v = pointAt P mi := by
+  induction P generalizing v with
+  | nil =>
+    simp only [ndPoints, List.mem_singleton]
+    constructor
+    · rintro rfl; exact ⟨[], trivial, rfl⟩
+    · rintro ⟨mi, h1, h2⟩
+      cases mi with
+      | nil => simpa [pointAt] using h2
+      | cons a b => exact absurd h1 (by simp [InRange])
+  | cons p rest ih =>
+    simp only [ndPoints, List.mem_flatMap, List.mem_map]
+    constructor
+    · rintro ⟨x, hx, w, hw, rfl⟩
+      obtain ⟨i, hi, rfl⟩ := (mem_coords p x).1 hx
+      obtain ⟨mi, h1, rfl⟩ := (ih w).1 hw
+      exact ⟨i :: mi, ⟨hi, h1⟩, rfl⟩
+    · rintro ⟨mi, h1, h2⟩
+      cases mi with
+      | nil => exact absurd h1 (by simp [InRange])
+      | cons i mi =>
+        obtain ⟨hi, h1⟩ := h1
+        refine ⟨p.c i, (mem_coords p _).2 ⟨i, hi, rfl⟩, pointAt rest mi, (ih _).2 ⟨mi, h1, rfl⟩, ?_⟩
+        rw [h2]; rfl
+
+theorem ndIndex_pointAt (P : Part) (hv : ∀ p ∈ P, Valid p) (mi : List Nat) (h : InRange P mi) :
+    ndIndex P (pointAt P mi) = some (mi.map fun (i : Nat) => (i : Int)) := by
+  induction P generalizing mi with
+  | nil =>
+    cases mi with
+    | nil => rfl
+    | cons a b => exact absurd h (by simp [InRange])
+  | cons p rest ih =>
+    cases mi with
+    | nil => exact absurd h (by simp [InRange])
+    | cons i mi =>
+      obtain ⟨hi, h1⟩ := h
+      have hp : Valid p := hv p (by simp)
+      have := ih (fun q hq => hv q (by simp [hq])) mi h1
+      simp [pointAt, ndIndex, index_node p hp i hi, this]
+
+theorem ndPoints_length (P : Part) : (ndPoints P).length = ndSize P := by
+  induction P with
+  | nil => rfl
+  | cons p rest ih =>
+    simp only [ndPoints, ndSize, List.length_flatMap, List.length_map, ih]
+    simp [Part1.coords, Function.comp_def]
+
+theorem uniform_ends (lo hi : Rat) (n : Nat) (hn : 2 ≤ n) (bl br : Bool) :
+    (if bl then (uniformAxis lo hi n bl br).c 0
+      else (uniformAxis lo hi n bl br).c 0 -
+        ((uniformAxis lo hi n bl br).c 1 - (uniformAxis lo hi n bl br).c 0) / 2) = lo ∧
+    (if br then (uniformAxis lo hi n bl br).c (n - 1)
+      else (uniformAxis lo hi n bl br).c (n - 1) +
+        ((uniformAxis lo hi n bl br).c (n - 1) - (uniformAxis lo hi n bl br).c (n - 2)) / 2) = hi := by
+  have hpos := halfCount_lt bl br n hn
+  have hne : (n : Rat) - halfCount bl br ≠ 0 := ne_of_gt hpos
+  have d0 := uniform_diff lo hi n hn bl br 0
+  have dl := uniform_diff lo hi n hn bl br (n - 2)
+  have e1 : n - 2 + 1 = n - 1 := by omega
+  rw [e1] at dl
+  simp only [Nat.zero_add] at d0
+  have hcast : ((n - 1 : Nat) : Rat) = (n : Rat) - 1 := by rw [Nat.cast_sub (by omega)]; simp
+  have hh : (hi - lo) / ((n : Rat) - halfCount bl br) * ((n : Rat) - halfCount bl br) = hi - lo :=
+    div_mul_cancel₀ _ hne
+  constructor
+  · cases bl
+    · simp only [Bool.false_eq_true, if_false]
+      rw [d0, uniform_nodes lo hi n hn]; simp; ring
+    · simp only [if_true]
+      rw [uniform_nodes lo hi n hn]; simp
+  · cases br
+    · simp only [Bool.false_eq_true, if_false]
+      rw [dl, uniform_nodes lo hi n hn, hcast]
+      generalize (hi - lo) / ((n : Rat) - halfCount bl false) = h at hh ⊢
+      cases bl <;> simp [halfCount] at hh ⊢ <;> linarith
+    · simp only [if_true]
+      rw [uniform_nodes lo hi n hn, hcast]
+      generalize (hi - lo) / ((n : Rat) - halfCount bl true) = h at hh ⊢
+      cases bl <;> simp [halfCount] at hh ⊢ <;> linarith
+
+theorem reNonuniform_uniform (lo hi : Rat) (hlh : lo < hi) (n : Nat) (hn : 2 ≤ n) (bl br : Bool) :
+    reNonuniform (uniformAxis lo hi n bl br) bl br = some (uniformAxis lo hi n bl br) := by
+  obtain ⟨h1, h2⟩ := uniform_ends lo hi n hn bl br
+  have hne : ¬ n = 1 := by omega
+  have hv := uniform_valid lo hi hlh n (by omega) bl br
+  have hn' : (uniformAxis lo hi n bl br).n = n := rfl
+  unfold reNonuniform nonuniformAxis
+  simp only [Option.isSome_none, Bool.false_and, Bool.or_false, Bool.false_eq_true, if_false, hn',
+    hne, decide_false, Bool.or_false]
+  cases bl <;> cases br <;> simp only [Bool.false_eq_true, if_false, if_true] at h1 h2 ⊢ <;>
+    rw [h1, h2] <;> exact mk?_of_valid _ hv
+
+theorem reFromGrid_uniform (lo hi : Rat) (hlh : lo < hi) (n : Nat) (hn : 2 ≤ n) (bl br : Bool) :
+    reFromGrid (uniformAxis lo hi n bl br) bl br = some (uniformAxis lo hi n bl br) := by
+  obtain ⟨h1, h2⟩ := uniform_ends lo hi n hn bl br
+  have hne : ¬ n = 1 := by omega
+  have hv := uniform_valid lo hi hlh n (by omega) bl br
+  have hn' : (uniformAxis lo hi n bl br).n = n := rfl
+  have hlo : (uniformAxis lo hi n bl br).lo = lo := rfl
+  have hhi : (uniformAxis lo hi n bl br).hi = hi := rfl
+  unfold reFromGrid fromGridAxis
+  cases bl <;> cases br <;>
+    simp only [Bool.false_eq_true, if_false, if_true, hn', hne, hlo, hhi] at h1 h2 ⊢ <;>
+    simp only [Option.bind_eq_bind, Option.bind_some, h1, h2] <;>
+    exact mk?_of_valid _ hv
+
+/-- parameters of one axis of `uniform_partition_fromintv` -/
+structure UAxis where
+  lo : Rat
+  hi : Rat
+  n : Nat
+  bl : Bool
+  br : Bool
+
+def UAxis.part (a : UAxis) : Part1 := uniformAxis a.lo a.hi a.n a.bl a.br
+def UAxis.side (a : UAxis) : Rat := (a.hi - a.lo) / ((a.n : Rat) - halfCount a.bl a.br)
+
+theorem fromIntv_axes (A : List UAxis) (h : ∀ a ∈ A, a.lo < a.hi ∧ 1 ≤ a.n) :
+    fromIntv (A.map (·.lo)) (A.map (·.hi)) (A.map (·.n)) (A.map fun a => (a.bl, a.br)) =
+      some (A.map UAxis.part) := by
+  unfold fromIntv
+  simp only [List.length_map, ne_eq, not_true_eq_false, or_self, if_false]
+  rw [List.zip_map', List.zip_map', List.zip_map']
+  rw [List.mapM_map]
+  apply mapM_some_of_forall
+  intro a ha
+  obtain ⟨h1, h2⟩ := h a ha
+  simp only [Function.comp]
+  rw [if_neg (not_lt.2 (le_of_lt h1))]
+  exact mk?_of_valid _ (uniform_valid a.lo a.hi h1 a.n h2 a.bl a.br)
+
+theorem ndCellSides_uniform (tol : Part1 → Tol) (ht : ∀ p, 0 ≤ (tol p).atol ∧ 0 ≤ (tol p).rtol)
+    (A : List UAxis) (h : ∀ a ∈ A, a.lo < a.hi ∧ 2 ≤ a.n) :
+    ndCellSides tol (A.map UAxis.part) = some (A.map UAxis.side) := by
+  induction A with
+  | nil => rfl
+  | cons a A ih =>
+    obtain ⟨h1, h2⟩ := h a (by simp)
+    have := uniform_cellSide (tol a.part) (ht _).1 (ht _).2 a.lo a.hi h1 a.n h2 a.bl a.br
+    simp only [List.map_cons, ndCellSides]
+    rw [show uniformAxis a.lo a.hi a.n a.bl a.br = a.part from rfl] at this
+    rw [this, ih (fun b hb => h b (by simp [hb]))]
+    rfl
+
+theorem prod_sides (A : List UAxis) (h : ∀ a ∈ A, a.lo < a.hi ∧ 2 ≤ a.n) :
+    prodList (A.map UAxis.side) * prodList (A.map fun a => (a.n : Rat) - halfCount a.bl a.br) =
+      prodList (A.map fun a => a.hi - a.lo) := by
+  induction A with
+  | nil => simp [prodList]
+  | cons a A ih =>
+    obtain ⟨h1, h2⟩ := h a (by simp)
+    have hne : (a.n : Rat) - halfCount a.bl a.br ≠ 0 := ne_of_gt (halfCount_lt a.bl a.br a.n h2)
+    have hs : a.side * ((a.n : Rat) - halfCount a.bl a.br) = a.hi - a.lo := div_mul_cancel₀ _ hne
+    simp only [List.map_cons, prodList]
+    rw [← ih (fun b hb => h b (by simp [hb])), ← hs]
+    ring
+
+theorem ndIsUniform_uniform (tol : Part1 → Tol) (ht : ∀ p, 0 ≤ (tol p).atol ∧ 0 ≤ (tol p).rtol)
+    (A : List UAxis) (h : ∀ a ∈ A, a.lo < a.hi ∧ 2 ≤ a.n) :
+    ndIsUniform tol (A.map UAxis.part) = true := by
+  unfold ndIsUniform
+  rw [List.all_eq_true]
+  intro p hp
+  obtain ⟨a, ha, rfl⟩ := List.mem_map.1 hp
+  obtain ⟨h1, h2⟩ := h a ha
+  have := uniform_cellSide (tol a.part) (ht _).1 (ht _).2 a.lo a.hi h1 a.n h2 a.bl a.br
+  rw [show uniformAxis a.lo a.hi a.n a.bl a.br = a.part from rfl] at this
+  unfold Part1.cellSide at this
+  by_contra hc
+  simp [hc] at this
+
+theorem allClose_replicate (t : Tol) (h1 : 0 ≤ t.atol) (h2 : 0 ≤ t.rtol) (s : Rat) (k m : Nat) :
+    allClose t (List.replicate k s) (List.replicate m s) = true := by
+  induction k generalizing m with
+  | zero => simp [allClose]
+  | succ k ih =>
+    cases m with
+    | zero => simp [allClose, List.replicate]
+    | succ m => simp [allClose, List.replicate, isClose_self t h1 h2 s, ih m]
+
+theorem map_eq_replicate' {α β} (f : α → β) (l : List α) (b : β) (h : ∀ a ∈ l, f a = b) :
+    l.map f = List.replicate l.length b := by
+  induction l with
+  | nil => rfl
+  | cons a l ih =>
+    simp only [List.map_cons, List.length_cons, List.replicate_succ]
+    rw [h a (by simp), ih (fun x hx => h x (by simp [hx]))]
+
+theorem ndIsotropic_uniform (tol : Part1 → Tol) (ht : ∀ p, 0 ≤ (tol p).atol ∧ 0 ≤ (tol p).rtol)
+    (t : Tol) (h1 : 0 ≤ t.atol) (h2 : 0 ≤ t.rtol)
+    (A : List UAxis) (h : ∀ a ∈ A, a.lo < a.hi ∧ 2 ≤ a.n) (s : Rat) (hs : ∀ a ∈ A, a.side = s) :
+    ndIsotropic tol t (A.map UAxis.part) = true := by
+  unfold ndIsotropic
+  rw [ndIsUniform_uniform tol ht A h, ndCellSides_uniform tol ht A h, map_eq_replicate' _ A s hs]
+  simp only [Bool.true_and]
+  cases hA : A.length with
+  | zero => simp [allClose]
+  | succ k =>
+    rw [List.replicate_succ, List.tail_cons]
+    rw [show s :: List.replicate k s = List.replicate (k + 1) s from rfl, List.dropLast_replicate]
+    exact allClose_replicate t h1 h2 s _ _
+
+/-- two tolerance-free isotropy: all sides equal -/
+theorem allClose_exact_chain (s : List Rat) (h : allClose Tol.exact s.dropLast s.tail = true) :
+    ∀ x ∈ s, ∀ y ∈ s, x = y := by
+  induction s with
+  | nil => simp
+  | cons a s ih =>
+    cases s with
+    | nil => simp
+    | cons b s =>
+      simp only [List.dropLast_cons_cons, List.tail_cons, allClose, Bool.and_eq_true] at h
+      have hab : a = b := (isClose_exact_iff a b).1 h.1
+      have := ih (by simpa using h.2)
+      intro x hx y hy
+      have hx' : x ∈ b :: s := by
+        rcases List.mem_cons.1 hx with rfl | hx
+        · rw [hab]; simp
+        · exact hx
+      have hy' : y ∈ b :: s := by
+        rcases List.mem_cons.1 hy with rfl | hy
+        · rw [hab]; simp
+        · exact hy
+      exact this x hx' y hy'
+
 end OdlModel.Partition
